@@ -139,7 +139,7 @@ def _more_known(d):
         return av is not None
     if k.endswith(".has"):
         return mv == "U" and av in ("0", "1")
-    if k == "ok" or k.endswith(".ok"):
+    if k == "ok" or k.endswith(".ok") or k == "complete" or k.endswith(".complete"):
         return mv == "0" and av == "1"
     return mv is None and av is not None
 
